@@ -807,3 +807,77 @@ Proof.
     rewrite forallb_forall in Hs'. apply relation_cmp_tree; auto.
   - intros x y Hx Hy. apply entry_cmp_tree; auto.
 Qed.
+
+(* ------------------------------------------------------------------ the statements of props/C13.v *)
+Theorem ws_full :
+  forall (allow : bool) (f : rfield), wf_rfield allow f = true -> field_safe f = true ->
+  exists t' : rtree,
+    parse_relaxed (rrender f) allow = Ok (rtree_of f, 0) /\
+    relations_ws fixed (rtree_of f) = Ok t' /\
+    text t' = canon_text (map (map wrel_c) (sorted_content (field_wcontent f)))
+                         (map subst_text_of (sorted_substs f)) /\
+    (exists es', wacc t' = Ok es' /\ sorted_shape es') /\
+    (exists fc, wf_rfield allow fc = true /\ text t' = rrender fc /\
+                parse_relaxed (text t') allow = Ok (rtree_of fc, 0) /\
+                (allow = false -> relations_from_str (text t') = Ok (rtree_of fc)) /\
+                (exists c, racc (rtree_of fc) = Ok c /\ racc_view c = rcontent fc) /\
+                same_content (rcontent f) (rcontent fc)) /\
+    relations_ws fixed t' = Ok t' /\
+    (exists tp, parse_relaxed (text t') allow = Ok (tp, 0) /\ relations_ws fixed tp = Ok t') /\
+    ctl_rel fixed (rrender f) = Ok (text t') /\
+    ctl_rel fixed (text t') = Ok (text t').
+Proof.
+  intros allow f H Hs. exists (ws_tree f).
+  assert (Ht : wf_rfield true f = true) by (destruct allow; [exact H|apply wf_rfield_allow, H]).
+  destruct (ws_reparse allow f H Hs) as (Hc & Et & Ep & Estrict & Hacc & Hsame).
+  destruct (ws_tree_idem allow f H Hs) as (Ei1 & Ei2).
+  destruct (ctl_rel_wf f Ht Hs) as (Ec1 & Ec2).
+  split; [apply parse_rrender, H|]. split; [exact (ws_rtree_of allow f H Hs)|].
+  split; [apply (text_ws_tree allow f H)|].
+  split; [exists (sorted_content (field_wcontent f)); split; [apply (wacc_ws_tree allow f H Hs)|apply (sorted_shape_content allow f H)]|].
+  split; [exists (canon_field f); split; [exact Hc|]; split; [exact Et|]; split; [exact Ep|]; split; [exact Estrict|]; split; [exact Hacc|exact Hsame]|].
+  split; [exact Ei1|]. split; [exists (rtree_of (canon_field f)); split; assumption|]. split; assumption.
+Qed.
+
+Theorem ws_text_wf : forall f : rfield, wf_rfield true f = true -> field_safe f = true ->
+  ws_text fixed (rrender f) =
+    Ok (canon_text (map (map wrel_c) (sorted_content (field_wcontent f))) (map subst_text_of (sorted_substs f))) /\
+  wacc (rtree_of f) = Ok (field_wcontent f) /\
+  map (map wrel_c) (field_wcontent f) = fst (rcontent_acc f).
+Proof.
+  intros f H Hs. split; [|split; [apply (wacc_rtree_of true), H|apply (wcontent_printed true), H]].
+  unfold ws_text, parse_relaxed. rewrite (parse_rrender true f H), (ws_rtree_of true f H Hs).
+  cbn [rmap bind]. f_equal. apply (text_ws_tree true f H).
+Qed.
+
+Theorem ws_meaning : forall allow (f : rfield), wf_rfield allow f = true -> field_safe f = true ->
+  exists t', relations_ws fixed (rtree_of f) = Ok t' /\
+    wf_rfield allow (canon_field f) = true /\
+    text t' = rrender (canon_field f) /\
+    parse_relaxed (text t') allow = Ok (rtree_of (canon_field f), 0) /\
+    (allow = false -> relations_from_str (text t') = Ok (rtree_of (canon_field f))) /\
+    (exists c, racc (rtree_of (canon_field f)) = Ok c /\ racc_view c = rcontent (canon_field f)) /\
+    same_content (rcontent f) (rcontent (canon_field f)).
+Proof.
+  intros allow f H Hs. exists (ws_tree f). split; [apply (ws_rtree_of allow f H Hs)|]. apply (ws_reparse allow f H Hs).
+Qed.
+
+From V.model Require Deb822Wrap.
+Theorem ws_idem_all : forall allow (f : rfield), wf_rfield allow f = true -> field_safe f = true ->
+  exists t', relations_ws fixed (rtree_of f) = Ok t' /\
+    relations_ws fixed t' = Ok t' /\
+    (exists tp, parse_relaxed (text t') allow = Ok (tp, 0) /\ relations_ws fixed tp = Ok t') /\
+    (forall name, str_eqb name Deb822Wrap.Lit.k_Uploaders = false ->
+       existsb (str_eqb name) (Deb822Wrap.Lit.relation_fields true) = true ->
+       Deb822Wrap.format_field Deb822Wrap.fixed (ctl_rel fixed) name (rrender f) = Ok (text t') /\
+       Deb822Wrap.format_field Deb822Wrap.fixed (ctl_rel fixed) name (text t') = Ok (text t')).
+Proof.
+  intros allow f H Hs. exists (ws_tree f).
+  assert (Ht : wf_rfield true f = true) by (destruct allow; [exact H|apply wf_rfield_allow, H]).
+  destruct (ws_reparse allow f H Hs) as (Hc & Et & Ep & _).
+  destruct (ws_tree_idem allow f H Hs) as (Ei1 & Ei2).
+  destruct (ctl_rel_wf f Ht Hs) as (Ec1 & Ec2).
+  split; [apply (ws_rtree_of allow f H Hs)|]. split; [exact Ei1|].
+  split; [exists (rtree_of (canon_field f)); split; assumption|].
+  intros name Hu Hr. unfold Deb822Wrap.format_field. cbn [Deb822Wrap.v_typo Deb822Wrap.fixed]. rewrite Hu, Hr. split; assumption.
+Qed.
